@@ -8,7 +8,7 @@ from vc.reflect import reflect_rs_bool_methods, rs_judgement_contracts
 from vc.rscontract import verify_rs_unit
 from vc import sm, smreplay
 from vc.rsreal import RustReal
-from contracts.rust_subst import inst_contracts
+from contracts.rust_subst import inst_contracts, rs_fn_replayer
 from contracts.sm_contracts import (step_unit, equivalence_lemmas, ReadVecContract, read_vec_unit, TakeLoop, verify_unit,
                                     exit_unit)
 
@@ -60,6 +60,8 @@ def build(repo, tier):
         notes=['spec decisions: ' + ' | '.join(sm.SPEC_DECISIONS)])
     spec.step_replay = True
     spec.lemma_replayers['C05/rs/step/'] = step_replayer
+    for _fn in ('apply_esubst', 'apply_ssubst', 'instantiate_internal'):
+        spec.lemma_replayers['C05/rs/' + _fn + '/'] = rs_fn_replayer
     spec.extra_checks.append(lambda tier, seed: [differential_standin(repo.root, tier, seed), three_phase_standin(repo.root, tier, seed)])
     return spec
 
